@@ -6,6 +6,7 @@ import EaselModel.Sqio.WindowSpec
 import EaselModel.Sqio.WindowTotal
 import EaselModel.Sqio.EmblTotal
 import EaselModel.Sqio.EmblTotalAll
+import EaselModel.Sqio.MsaSeqMode
 /-! # C02 — sequence-file input is total: any bytes give a normal outcome
 
 Property theorems only (proofs are glue on `Sqio/Refine.lean`, `Sqio/NoFault.lean`).
@@ -211,5 +212,130 @@ theorem read_all_linebased_total (file : Bytes) (B abc fmt : Nat) (eofOk : Bool)
     (ParseFasta.readAllM (file.size + 2) (openLine file B abc fmt eofOk inmap0 inmap1) sq).2 = .eof ∨
     (ParseFasta.readAllM (file.size + 2) (openLine file B abc fmt eofOk inmap0 inmap1) sq).2 = .eformat :=
   EmblTotalAll.read_all_linebased_open_total file B abc fmt eofOk inmap0 inmap1 hB hf hm sq hmap
+
+
+/-! ## Alignment files read sequentially as sequences (round 6)
+
+Model `Sqio/MsaSeq.lean`: the `esl_sqio_IsAlignment` branches of `sqascii_Read` / `ReadInfo` / `ReadSequence` / `ReadWindow` /
+`ReadBlock`, `esl_sq_FetchFromMSA` and the dealigning, on top of the C01 models of `msafile_OpenBuffer` (declared format or
+autodetection) and of the ten alignment readers (imported, not re-modelled). Lemmas `Sqio/MsaSeqLemmas.lean`, `Sqio/MsaSeqMode.lean`.
+Everything below holds for EVERY byte string: the bytes only enter through `Opened.read`, whose outcome is good for every list of lines
+(C01 `opened_read_good`). `Inv` = the alignment held by the handle (if any) is one the reader returned; it holds after open and every
+call keeps it, so the statements hold after every history of calls. `ModeOk o` = the reader delivers alignments in the handle's mode
+(digital iff an alphabet was set, with that alphabet's `Kp`): a theorem for aligned FASTA, A2M, Clustal, Clustal-like, PSI-BLAST and
+PHYLIP (default name width) - `msa_mode_ok` -; for Stockholm / Pfam / SELEX it is a hypothesis tied by the differential run (the model
+answers `fault` on a mismatch, the implementation cannot). -/
+
+open EaselModel.Sqio.MsaSeq EaselModel.Msafile in
+/-- **opening an alignment file as a sequence file is total** (declared alignment format, or autodetection that found no unaligned
+    format), for every byte string, file name and alphabet: `eslOK` with a handle that satisfies the invariant (`idx = 0`, no exception
+    pending, the alphabet handed to `esl_msafile_SetDigital`), or `eslEFORMAT`; never a fault. -/
+theorem msa_open_total (file : Sqio.Bytes) (fname : LBytes) (fsel : FmtSel) (abc : Nat) :
+    (((openMsa file fname fsel abc).2 = .ok ∧ (openMsa file fname fsel abc).1.isSome = true) ∨
+     ((openMsa file fname fsel abc).2 = .eformat ∧ (openMsa file fname fsel abc).1 = none)) ∧
+    (∀ h, (openMsa file fname fsel abc).1 = some h → Inv h ∧ h.idx = 0 ∧ h.exc = false ∧ h.o.abc = abcTypeOf abc) :=
+  ⟨openMsa_total file fname fsel abc, fun h ho => openMsa_inv file fname fsel abc h ho⟩
+
+open EaselModel.Sqio.MsaSeq EaselModel.Msafile in
+/-- **`esl_sq_FetchFromMSA` is total on every alignment a reader can return**: `eslEOD` exactly when `which` is not a row; otherwise a
+    well-formed record in the alignment's mode - name / description inside their allocations, residue array of exactly the reported
+    length with room for the terminator, `start = 1`, `end = W = L = n`, `C = 0`, at most `alen` residues, text residues never NUL and
+    never a gap character, digital codes `< Kp` and never a sentinel. Never a fault. -/
+theorem msa_fetch_total (abc : Option AbcType) (m : Msa) (which : Int) (hw : m.wellFormed = true) (hd : m.digital = abc.isSome) :
+    (((which ≥ (m.nseq : Int) ∨ which < 0) ∧ fetchFromMSA abc m which = (none, .eod)) ∨
+     (0 ≤ which ∧ which < (m.nseq : Int) ∧ ∃ t, fetchFromMSA abc m which = (some t, .ok) ∧ RowWF m.kp t ∧ t.digital = m.digital ∧
+        t.n ≤ m.alen)) := fetchFromMSA_total abc m which hw hd
+
+open EaselModel.Sqio.MsaSeq EaselModel.Msafile in
+/-- **`sqascii_Read` (= `sqascii_ReadSequence`) on an alignment file is total, for every byte string and every history**: `eslOK` with
+    a well-formed record of the handle's mode (at most `alen` residues of the alignment now held), `eslEOF`, or `eslEFORMAT` with a
+    message; never a fault, no exception; the invariant and `0 ≤ idx` are kept. -/
+theorem msa_read_total (h : MsaH) (sq : Sq) (hi : Inv h) (hm : ModeOk h.o) (hidx : 0 ≤ h.idx) (hsq : sq.digital = h.o.abc.isSome) :
+    Inv (MsaSeq.read h sq).1 ∧ (MsaSeq.read h sq).1.o = h.o ∧ (MsaSeq.read h sq).1.exc = h.exc ∧ 0 ≤ (MsaSeq.read h sq).1.idx ∧
+    (((MsaSeq.read h sq).2.2 = .ok ∧ (MsaSeq.read h sq).2.1.digital = sq.digital ∧
+        ∃ m, (MsaSeq.read h sq).1.msa = some m ∧ RowWF m.kp (MsaSeq.read h sq).2.1 ∧ (MsaSeq.read h sq).2.1.n ≤ m.alen) ∨
+     (MsaSeq.read h sq).2.2 = .eof ∨ ((MsaSeq.read h sq).2.2 = .eformat ∧ (MsaSeq.read h sq).1.haveErr = true)) :=
+  MsaSeq.read_total h sq hi hm hidx hsq
+
+open EaselModel.Sqio.MsaSeq EaselModel.Msafile in
+theorem msa_readSequence_total (h : MsaH) (sq : Sq) (hi : Inv h) (hm : ModeOk h.o) (hidx : 0 ≤ h.idx) (hsq : sq.digital = h.o.abc.isSome) :
+    (MsaSeq.readSequence h sq).2.2 = .ok ∨ (MsaSeq.readSequence h sq).2.2 = .eof ∨
+    ((MsaSeq.readSequence h sq).2.2 = .eformat ∧ (MsaSeq.readSequence h sq).1.haveErr = true) := by
+  rcases (MsaSeq.read_total h sq hi hm hidx hsq).2.2.2.2 with h1 | h1 | h1
+  · exact Or.inl h1.1
+  · exact Or.inr (Or.inl h1)
+  · exact Or.inr (Or.inr h1)
+
+open EaselModel.Sqio.MsaSeq EaselModel.Msafile in
+/-- **`sqascii_ReadInfo` on an alignment file is total**: `eslOK` with a well-formed info record (no residues, `start = end = C = W = 0`,
+    `L ≥ 0`, strings inside their allocations), `eslEOF`, or `eslEFORMAT` with a message; never a fault, no exception. -/
+theorem msa_readInfo_total (h : MsaH) (sq : Sq) (hi : Inv h) (hm : ModeOk h.o) (hidx : 0 ≤ h.idx) (hsq : sq.digital = h.o.abc.isSome) :
+    Inv (MsaSeq.readInfo h sq).1 ∧ (MsaSeq.readInfo h sq).1.o = h.o ∧ (MsaSeq.readInfo h sq).1.exc = h.exc ∧ 0 ≤ (MsaSeq.readInfo h sq).1.idx ∧
+    (((MsaSeq.readInfo h sq).2.2 = .ok ∧ InfoWF (MsaSeq.readInfo h sq).2.1) ∨
+     (MsaSeq.readInfo h sq).2.2 = .eof ∨ ((MsaSeq.readInfo h sq).2.2 = .eformat ∧ (MsaSeq.readInfo h sq).1.haveErr = true)) :=
+  MsaSeq.readInfo_total h sq hi hm hidx hsq
+
+open EaselModel.Sqio.MsaSeq EaselModel.Msafile in
+/-- **the mode hypothesis is a theorem for seven of the ten format selections** (every alphabet, every list of lines) -/
+theorem msa_mode_ok (abc : Option AbcType) (nw : Nat) :
+    ModeOk ⟨.afa, abc, nw⟩ ∧ ModeOk ⟨.a2m, abc, nw⟩ ∧ ModeOk ⟨.clustal, abc, nw⟩ ∧ ModeOk ⟨.clustallike, abc, nw⟩ ∧
+    ModeOk ⟨.psiblast, abc, nw⟩ ∧ ModeOk ⟨.phylip, abc, 0⟩ ∧ ModeOk ⟨.phylips, abc, 0⟩ :=
+  ⟨modeOk_afa abc nw, modeOk_a2m abc nw, modeOk_clustal abc nw, modeOk_clustallike abc nw, modeOk_psiblast abc nw,
+   modeOk_phylip abc, modeOk_phylips abc⟩
+
+open EaselModel.Sqio.MsaSeq in
+/-- **forward windows over an alignment row** (`sqascii_ReadWindow`, alignment branch, `W > 0`): from a fresh `ESL_SQ` or one holding the
+    previous window, context `0 ≤ C' ≤ C`, `0 ≤ W' ≤ W` new residues starting right after the previous window (`start + C' = end0 + 1`,
+    `end = end0 + W'`), `n = C' + W'`, the slice `start..end` inside `1..L`; `W' = 0` - the `eslEOD` answer - exactly when the previous
+    window ended at `L`; the state after a window is again a forward state (so the windows tile `1..L` exactly once). -/
+theorem msa_fwd_window_coords (n0 start0 end0 L C W : Int) (hL : 0 ≤ L) (hC : 0 ≤ C) (hW : 1 ≤ W) (hs : FwdState n0 start0 end0 L) :
+    0 ≤ (fwdCoords n0 end0 L C W).1 ∧ (fwdCoords n0 end0 L C W).1 ≤ C ∧
+    (fwdCoords n0 end0 L C W).2.1 + (fwdCoords n0 end0 L C W).1 = end0 + 1 ∧
+    (fwdCoords n0 end0 L C W).2.2.2.1 = (fwdCoords n0 end0 L C W).1 + (fwdCoords n0 end0 L C W).2.2.2.2 ∧
+    0 ≤ (fwdCoords n0 end0 L C W).2.2.2.2 ∧ (fwdCoords n0 end0 L C W).2.2.2.2 ≤ W ∧
+    ((fwdCoords n0 end0 L C W).2.2.2.2 = 0 ↔ end0 = L) ∧
+    1 ≤ (fwdCoords n0 end0 L C W).2.1 ∧
+    (fwdCoords n0 end0 L C W).2.1 + (fwdCoords n0 end0 L C W).2.2.2.1 = (fwdCoords n0 end0 L C W).2.2.1 + 1 ∧
+    (fwdCoords n0 end0 L C W).2.2.1 ≤ L ∧
+    (fwdCoords n0 end0 L C W).2.2.1 = end0 + (fwdCoords n0 end0 L C W).2.2.2.2 ∧
+    ((fwdCoords n0 end0 L C W).2.2.2.2 ≠ 0 →
+      FwdState (fwdCoords n0 end0 L C W).2.2.2.1 (fwdCoords n0 end0 L C W).2.1 (fwdCoords n0 end0 L C W).2.2.1 L) :=
+  fwdCoords_spec n0 start0 end0 L C W hL hC hW hs
+
+open EaselModel.Sqio.MsaSeq in
+/-- **reverse-strand windows over an alignment row, as repaired by 46b16f4** (`W < 0`): context `0 ≤ C' ≤ C` from the previous window,
+    `0 ≤ W' ≤ |W|` new residues going down from `end0 - 1` (from `L` on the first window), `n = C' + W'`, the slice inside `1..L`;
+    `W' = 0` - `eslEOD` - exactly when the strand is finished; after the swap of `esl_sq_ReverseComplement` the state is again a reverse
+    state (so the windows tile `L..1` exactly once). The known finding C02:readwindow-msa:reverse-strand-coordinates is retired. -/
+theorem msa_rev_window_coords (n0 start0 end0 L C W : Int) (hL : 0 ≤ L) (hC : 0 ≤ C) (hW : W ≤ -1) (hs : RevState n0 start0 end0 L) :
+    0 ≤ (revCoords n0 start0 end0 L C W).1 ∧ (revCoords n0 start0 end0 L C W).1 ≤ C ∧
+    (start0 = 0 → (revCoords n0 start0 end0 L C W).2.2.1 = L) ∧
+    (start0 ≠ 0 → (revCoords n0 start0 end0 L C W).2.2.1 - (revCoords n0 start0 end0 L C W).1 = end0 - 1) ∧
+    (revCoords n0 start0 end0 L C W).2.2.2.1 = (revCoords n0 start0 end0 L C W).1 + (revCoords n0 start0 end0 L C W).2.2.2.2 ∧
+    0 ≤ (revCoords n0 start0 end0 L C W).2.2.2.2 ∧ (revCoords n0 start0 end0 L C W).2.2.2.2 ≤ -W ∧
+    ((revCoords n0 start0 end0 L C W).2.2.2.2 = 0 ↔ (start0 = 0 ∧ L = 0) ∨ (start0 ≠ 0 ∧ end0 = 1)) ∧
+    1 ≤ (revCoords n0 start0 end0 L C W).2.1 ∧
+    (revCoords n0 start0 end0 L C W).2.1 + (revCoords n0 start0 end0 L C W).2.2.2.1 = (revCoords n0 start0 end0 L C W).2.2.1 + 1 ∧
+    (revCoords n0 start0 end0 L C W).2.2.1 ≤ L ∧
+    ((revCoords n0 start0 end0 L C W).2.2.2.2 ≠ 0 →
+      RevState (revCoords n0 start0 end0 L C W).2.2.2.1 (revCoords n0 start0 end0 L C W).2.2.1 (revCoords n0 start0 end0 L C W).2.1 L) :=
+  revCoords_spec n0 start0 end0 L C W hL hC hW hs
+
+open EaselModel.Sqio.MsaSeq in
+/-- the arithmetic before the repair at the retired finding's witness (fresh state after `eslEOD`, `L = 10`, `C = 0`, `W = -3`):
+    context `-1`, 4 residues, "5 new" - and what the repaired code computes there: residues `8..10`, no context, 3 new -/
+theorem msa_rev_window_old_illformed :
+    revCoordsOld 0 0 0 10 0 (-3) = (-1, 7, 10, 4, 5) ∧ revCoords 0 0 0 10 0 (-3) = (0, 8, 10, 3, 3) :=
+  ⟨revCoordsOld_illformed, revCoords_witness⟩
+
+open EaselModel.Sqio.MsaSeq EaselModel.Msafile in
+/-- non-vacuity on the executable model: the Stockholm file `# STOCKHOLM 1.0\ns1 AC-GU\n//\n` opened as RNA: the handle satisfies the
+    hypotheses, the first `sqascii_Read` returns `ACGU` dealigned (codes 0 1 2 3), the second `eslEOF` -/
+example :
+    let file : Sqio.Bytes := (str "# STOCKHOLM 1.0\ns1 AC-GU\n//\n").toArray
+    ∃ h, (openMsa file (str "t.sto") (.decl .stockholm) 2).1 = some h ∧ 0 ≤ h.idx ∧
+      (MsaSeq.read h (freshSq 2)).2.2 = .ok ∧ (MsaSeq.read h (freshSq 2)).2.1.seq = #[0, 1, 2, 3] ∧
+      (MsaSeq.read (MsaSeq.read h (freshSq 2)).1 (freshSq 2)).2.2 = .eof := by
+  decide +kernel
 
 end EaselModel.Props.C02
